@@ -8,7 +8,9 @@ package main
 import (
 	"fmt"
 	"math/rand/v2"
+	"runtime"
 	"sort"
+	"strconv"
 	"strings"
 	"sync"
 
@@ -41,12 +43,22 @@ const (
 	nEntries
 )
 
+// entryName labels the counters; sigFunc is the function a violation is
+// attributed to (the signer-less wrappers share their ForZone implementation).
 var entryName = [nEntries]string{
 	"VerifyNameErrorNSEC", "VerifyNODATANSEC", "VerifyDelegationNSEC", "VerifyWildcardAnswerForZoneWithWork.NSEC",
 	"EvaluateAggressiveNSEC", "EvaluateAggressiveNSECPrepared", "EvaluateAggressiveNSECSet",
 	"VerifyNameErrorForZoneWithWork", "VerifyNODATAForZoneWithWork", "VerifyDelegationForZoneWithWork",
 	"VerifyWildcardAnswerForZoneWithWork.NSEC3", "EvaluateAggressiveNSEC3",
 	"VerifyNameError", "VerifyNODATA", "VerifyDelegation", "VerifyWildcardAnswer.NSEC3",
+}
+
+var sigFunc = [nEntries]string{
+	"VerifyNameErrorNSEC", "VerifyNODATANSEC", "VerifyDelegationNSEC", "VerifyWildcardAnswer.NSEC",
+	"EvaluateAggressiveNSEC", "EvaluateAggressiveNSECPrepared", "EvaluateAggressiveNSECSet",
+	"VerifyNameErrorForZoneWithWork", "VerifyNODATAForZoneWithWork", "VerifyDelegationForZoneWithWork",
+	"VerifyWildcardAnswer.NSEC3", "EvaluateAggressiveNSEC3",
+	"VerifyNameErrorForZoneWithWork", "VerifyNODATAForZoneWithWork", "VerifyDelegationForZoneWithWork", "VerifyWildcardAnswer.NSEC3",
 }
 
 func entryIndex(name string) int {
@@ -59,6 +71,18 @@ func entryIndex(name string) int {
 }
 
 func isNSEC3Entry(e int) bool { return e >= eNameErrN3 }
+
+func family(e int) string {
+	switch {
+	case e == eAggNSEC || e == eAggNSECPrepared || e == eAggNSECSet:
+		return "nsec-aggressive"
+	case e == eAggN3:
+		return "nsec3-aggressive"
+	case isNSEC3Entry(e):
+		return "nsec3-exact"
+	}
+	return "nsec-exact"
+}
 
 // CaseA is the serialisable replay case of one Layer A call.
 type CaseA struct {
@@ -76,6 +100,93 @@ type CaseA struct {
 	WildLabel int       `json:"wild_labels,omitempty"`
 	Verdict   string    `json:"verdict,omitempty"`
 	Truth     string    `json:"truth,omitempty"`
+	Where     string    `json:"where,omitempty"`
+}
+
+// qinfo caches what the model says about one universe name.
+type qinfo struct {
+	q         QName
+	types     []uint16
+	msgs      []*dns.Msg
+	tA        Truth
+	tQ        []Truth
+	shape     string
+	insecTerr bool // q.N is at/below an insecure delegation
+	ncOpt     bool // the complete chain's cover of the next closer of Eff has Opt-Out
+	wcOpt     bool // ... of the wildcard at the hashed closest encloser
+	excuse    bool // an insecure (Opt-Out) denial of Eff is legitimate under RFC 5155 §6 / §12.2
+	dlgExcuse bool // same for q.N as the subject of VerifyDelegation
+}
+
+func mkMsg(q QName, qtype uint16) *dns.Msg {
+	m := new(dns.Msg)
+	m.SetQuestion(q.N.P, qtype)
+	m.Response = true
+	if q.Dname != nil {
+		m.Answer = []dns.RR{q.Dname}
+	}
+	return m
+}
+
+func mkQinfo(z *Zone, q QName, types []uint16) *qinfo {
+	qi := &qinfo{q: q, types: types, shape: shapeOf(q.Eff, z.Apex)}
+	qi.tA = z.TruthOf(q.Eff, dns.TypeA)
+	for _, t := range types {
+		qi.tQ = append(qi.tQ, z.TruthOf(q.Eff, t))
+		qi.msgs = append(qi.msgs, mkMsg(q, t))
+	}
+	qi.insecTerr = z.InsecureTerritory(q.N)
+	qi.excuse, qi.ncOpt, qi.wcOpt = z.optOutFacts(q.Eff)
+	qi.dlgExcuse, _, _ = z.optOutFacts(q.N)
+	return qi
+}
+
+// optOutFacts: for a name that is not part of the hashed chain, whether the
+// complete chain's cover of its next closer name (and of the wildcard at the
+// hashed closest encloser) carries Opt-Out. excuse additionally requires that
+// the hashed closest encloser is not a zone cut: then "there may be an
+// unsigned delegation here" cannot be refuted from the signed zone, which is
+// the documented Opt-Out trade-off (RFC 5155 §12.2), and an INSECURE verdict
+// resting on that span is legitimate.
+func (z *Zone) optOutFacts(n Name) (excuse, ncOpt, wcOpt bool) {
+	if !z.Spec.OptOut || !n.IsSubOf(z.Apex) {
+		return
+	}
+	ce, next, exact := z.hashedCE(n)
+	if exact {
+		return
+	}
+	_, ncOpt = z.coverOptOut(next)
+	w := ce.Child([]byte{'*'})
+	if !z.hashed[w.K] {
+		_, wcOpt = z.coverOptOut(w)
+	}
+	cut := false
+	if nd := z.Nodes[ce.K]; nd != nil && (nd.Deleg || nd.DNAME != nil) {
+		cut = true
+	}
+	excuse = ncOpt && !cut
+	return
+}
+
+type wildCase struct {
+	qi      int
+	L       int
+	rtype   uint16
+	nc      Name
+	ncT     Truth
+	ncCovOO bool // complete chain's cover of nc has Opt-Out
+	ncExc   bool
+}
+
+func mkWildCase(z *Zone, q Name, qi, L int, rtype uint16) wildCase {
+	wc := wildCase{qi: qi, L: L, rtype: rtype, nc: q.Suffix(L + 1)}
+	wc.ncT = z.TruthOf(wc.nc, dns.TypeA)
+	if z.Spec.OptOut && !z.hashed[wc.nc.K] {
+		_, wc.ncCovOO = z.coverOptOut(wc.nc)
+		wc.ncExc = wc.ncCovOO
+	}
+	return wc
 }
 
 // callIn is everything one evaluator call needs.
@@ -84,13 +195,19 @@ type callIn struct {
 	signer  string
 	recs    []dns.RR // NSEC or NSEC3 records exactly as handed to the evaluator
 	mix     string   // "", "zone", "class", "params": how the unfiltered set was polluted
-	q       QName
-	qtype   uint16
-	msg     *dns.Msg
-	wildL   int // RRSIG Labels of the wildcard-answer case
+	qi      *qinfo
+	ti      int
+	wc      *wildCase
 	wildMsg *dns.Msg
 	prep    []dnssec.PreparedNSEC
 	set     *dnssec.AggressiveNSECSet
+}
+
+func (in *callIn) qtype() uint16 {
+	if in.wc != nil {
+		return in.wc.rtype
+	}
+	return in.qi.types[in.ti]
 }
 
 type callOut struct {
@@ -112,85 +229,87 @@ func doCall(e int, in *callIn) (out callOut) {
 		}
 	}()
 	var err error
+	q := in.qi.q
+	var msg *dns.Msg
+	if in.wc == nil {
+		msg = in.qi.msgs[in.ti]
+	}
+	question := func() dns.Question {
+		return dns.Question{Name: q.Eff.P, Qtype: in.qtype(), Qclass: dns.ClassINET}
+	}
 	switch e {
 	case eNameErrNSEC:
-		err = dnssec.VerifyNameErrorNSEC(in.msg, in.recs)
+		err = dnssec.VerifyNameErrorNSEC(msg, in.recs)
 		out.secure = true
 	case eNodataNSEC:
-		err = dnssec.VerifyNODATANSEC(in.msg, in.recs)
+		err = dnssec.VerifyNODATANSEC(msg, in.recs)
 		out.secure = true
 	case eDelegNSEC:
-		err = dnssec.VerifyDelegationNSEC(in.q.N.P, in.recs)
+		err = dnssec.VerifyDelegationNSEC(q.N.P, in.recs)
 	case eWildNSEC, eWildN3:
 		out.secure, err = dnssec.VerifyWildcardAnswerForZoneWithWork(in.wildMsg, in.signer, nil)
 	case eWildN3Legacy:
 		err = dnssec.VerifyWildcardAnswer(in.wildMsg)
-		out.secure = false
 	case eAggNSEC:
 		var r dnssec.AggressiveNegativeResult
-		r, err = dnssec.EvaluateAggressiveNSEC(dns.Question{Name: in.q.Eff.P, Qtype: in.qtype, Qclass: dns.ClassINET}, in.signer, in.recs)
+		r, err = dnssec.EvaluateAggressiveNSEC(question(), in.signer, in.recs)
 		out.rcode, out.proof = r.Rcode, r.Proof
 	case eAggNSECPrepared:
 		var r dnssec.AggressiveNegativeResult
-		r, err = dnssec.EvaluateAggressiveNSECPrepared(dns.Question{Name: in.q.Eff.P, Qtype: in.qtype, Qclass: dns.ClassINET}, in.signer, in.prep)
+		r, err = dnssec.EvaluateAggressiveNSECPrepared(question(), in.signer, in.prep)
 		out.rcode, out.proof = r.Rcode, r.Proof
 	case eAggNSECSet:
 		var r dnssec.AggressiveNegativeResult
-		r, err = dnssec.EvaluateAggressiveNSECSet(dns.Question{Name: in.q.Eff.P, Qtype: in.qtype, Qclass: dns.ClassINET}, in.set)
+		r, err = dnssec.EvaluateAggressiveNSECSet(question(), in.set)
 		out.rcode, out.proof = r.Rcode, r.Proof
 	case eNameErrN3:
-		out.secure, err = dnssec.VerifyNameErrorForZoneWithWork(in.msg, in.recs, in.signer, nullWork{})
+		out.secure, err = dnssec.VerifyNameErrorForZoneWithWork(msg, in.recs, in.signer, nullWork{})
 	case eNodataN3:
-		out.secure, err = dnssec.VerifyNODATAForZoneWithWork(in.msg, in.recs, in.signer, nullWork{})
+		out.secure, err = dnssec.VerifyNODATAForZoneWithWork(msg, in.recs, in.signer, nullWork{})
 	case eDelegN3:
-		err = dnssec.VerifyDelegationForZoneWithWork(in.q.N.P, in.signer, in.recs, nil)
+		err = dnssec.VerifyDelegationForZoneWithWork(q.N.P, in.signer, in.recs, nil)
 	case eAggN3:
 		var r dnssec.AggressiveNegativeResult
-		r, err = dnssec.EvaluateAggressiveNSEC3(dns.Question{Name: in.q.Eff.P, Qtype: in.qtype, Qclass: dns.ClassINET}, in.signer, in.recs, nil)
+		r, err = dnssec.EvaluateAggressiveNSEC3(question(), in.signer, in.recs, nil)
 		out.rcode, out.proof = r.Rcode, r.Proof
 	case eNameErrN3Legacy:
-		err = dnssec.VerifyNameError(in.msg, in.recs)
+		err = dnssec.VerifyNameError(msg, in.recs)
 	case eNodataN3Legacy:
-		err = dnssec.VerifyNODATA(in.msg, in.recs)
+		err = dnssec.VerifyNODATA(msg, in.recs)
 	case eDelegN3Legacy:
-		err = dnssec.VerifyDelegation(in.q.N.P, in.recs)
+		err = dnssec.VerifyDelegation(q.N.P, in.recs)
 	}
 	out.accepted = err == nil
 	return out
 }
 
-// judge returns ("", "") when the accepted verdict is consistent with the
+// judge returns ("", "", "") when the accepted verdict is consistent with the
 // model, else a violation signature and a sentence. tolerated != "" names an
-// accepted verdict that is unsound in general but true in this model.
+// accepted verdict that is unsound in general but true in this model, or an
+// insecure verdict excused by Opt-Out.
 func judge(e int, in *callIn, out callOut) (sig, what, tolerated string) {
 	z := in.z
 	name := entryName[e]
-	fam := "nsec-exact"
-	switch {
-	case e == eAggNSEC || e == eAggNSECPrepared || e == eAggNSECSet:
-		fam = "nsec-aggressive"
-	case e == eAggN3:
-		fam = "nsec3-aggressive"
-	case isNSEC3Entry(e):
-		fam = "nsec3-exact"
-	}
+	fam := family(e)
 	bad := func(reason, format string, a ...any) (string, string, string) {
-		return vlib.Sig(fam, name, reason), fmt.Sprintf(format, a...), ""
+		return vlib.Sig(fam, sigFunc[e], reason), fmt.Sprintf(format, a...), ""
 	}
-	if in.mix != "" && (fam != "nsec-exact") {
-		return bad("mixed-set-accepted-"+in.mix, "%s accepted a record set mixing %s (signer %s, qname %s)", name, in.mix, in.signer, in.q.Eff.P)
+	eff := in.qi.q.Eff
+	if in.mix != "" && fam != "nsec-exact" {
+		return bad("mixed-set-accepted-"+in.mix, "%s accepted a record set mixing %s (signer %s, qname %s)", name, in.mix, in.signer, eff.P)
 	}
-	eff := in.q.Eff
 	n3 := isNSEC3Entry(e)
-	insecure := n3 && !out.secure && (e == eNameErrN3 || e == eNodataN3 || e == eWildN3)
 	legacy := e == eNameErrN3Legacy || e == eNodataN3Legacy || e == eWildN3Legacy
+	// insecureOK: the verdict did not claim to be secure (or, for the signer-less
+	// wrappers, does not say)
+	insecureOK := legacy || (n3 && !out.secure && (e == eNameErrN3 || e == eNodataN3 || e == eWildN3))
 
 	nameErr := func(t Truth) (string, string, string) {
 		if t.Kind == KNX {
 			return "", "", ""
 		}
-		if (insecure || legacy) && z.hiddenByOptOut(eff) {
-			return "", "", "" // RFC 5155 §6: an Opt-Out proof may deny an unsigned delegation
+		if insecureOK && in.qi.excuse {
+			return "", "", "optout-insecure-denial"
 		}
 		reason := map[Kind]string{KExists: "existing-name-denied", KENT: "empty-non-terminal-denied", KWild: "wildcard-covered-name-denied",
 			KAtDeleg: "delegation-point-denied", KBelowDeleg: "name-below-delegation-denied", KBelowDNAME: "name-below-dname-denied", KOut: "out-of-zone"}[t.Kind]
@@ -203,15 +322,16 @@ func judge(e int, in *callIn, out callOut) (sig, what, tolerated string) {
 		if t.NoData() {
 			return "", "", ""
 		}
-		if (insecure || legacy) && (z.hiddenByOptOut(eff) || t.Kind == KNX) {
-			return "", "", ""
+		if insecureOK && in.qi.excuse {
+			return "", "", "optout-insecure-denial"
 		}
+		qt := dns.TypeToString[in.qtype()]
 		switch t.Kind {
 		case KAtDeleg:
 			if t.Data == DNoData {
 				return "", "", "nodata-at-delegation-child-lacks-type"
 			}
-			return bad("nodata-at-delegation-type-in-child", "%s accepted NODATA for %s/%s from the parent-side denial record of a delegation; the child apex has that type (RFC 6840 §4.1)", name, eff.P, dns.TypeToString[in.qtype])
+			return bad("nodata-at-delegation-type-in-child", "%s accepted NODATA for %s/%s from the parent-side denial record of a delegation; the child apex has that type (RFC 6840 §4.1)", name, eff.P, qt)
 		case KExists, KWild:
 			r := "type-present-denied"
 			if t.Data == DCNAME {
@@ -220,7 +340,7 @@ func judge(e int, in *callIn, out callOut) (sig, what, tolerated string) {
 			if t.Kind == KWild {
 				r = "wildcard-" + r
 			}
-			return bad(r, "%s accepted NODATA for %s/%s but the model says %s/%s", name, eff.P, dns.TypeToString[in.qtype], t.Kind, t.Data)
+			return bad(r, "%s accepted NODATA for %s/%s but the model says %s/%s", name, eff.P, qt, t.Kind, t.Data)
 		case KBelowDeleg, KBelowDNAME:
 			r := "nodata-below-cut"
 			if fam == "nsec-exact" && hasOwner(in.recs, t.Cut.Name) {
@@ -228,69 +348,41 @@ func judge(e int, in *callIn, out callOut) (sig, what, tolerated string) {
 			}
 			return bad(r, "%s accepted NODATA for %s which lies %s %s", name, eff.P, t.Kind, t.Cut.Name.P)
 		case KNX:
-			return bad("nodata-for-nonexistent-name", "%s accepted NODATA for %s/%s but the name does not exist and no wildcard matches", name, eff.P, dns.TypeToString[in.qtype])
+			return bad("nodata-for-nonexistent-name", "%s accepted NODATA for %s/%s but the name does not exist and no wildcard matches", name, eff.P, qt)
 		}
 		return bad("nodata-"+t.Kind.String(), "%s accepted NODATA for %s (%s)", name, eff.P, t.Kind)
-	}
-	optReliance := func(wild bool) (nc, wc bool) {
-		if !z.Spec.OptOut {
-			return
-		}
-		ce, next, exact := z.hashedCE(eff)
-		if exact {
-			return
-		}
-		_, nc = z.coverOptOut(next)
-		if wild {
-			w := ce.Child([]byte{'*'})
-			if !z.hashed[w.K] {
-				_, wc = z.coverOptOut(w)
-			}
-		}
-		return
 	}
 
 	switch e {
 	case eNameErrNSEC:
-		return nameErr(z.TruthOf(eff, dns.TypeA))
+		return nameErr(in.qi.tA)
 	case eNodataNSEC:
-		return noData(z.TruthOf(eff, in.qtype))
+		return noData(in.qi.tQ[in.ti])
 	case eNameErrN3, eNameErrN3Legacy:
-		if s, w, t := nameErr(z.TruthOf(eff, dns.TypeA)); s != "" {
+		if s, w, t := nameErr(in.qi.tA); s != "" || t != "" {
 			return s, w, t
 		}
-		if e == eNameErrN3 && out.secure {
-			if nc, _ := optReliance(false); nc {
-				return bad("optout-span-secure", "%s returned secure=true for %s although the next-closer cover has Opt-Out set", name, eff.P)
-			}
+		if e == eNameErrN3 && out.secure && in.qi.ncOpt {
+			return bad("optout-span-secure", "%s returned secure=true for %s although the next-closer cover has Opt-Out set", name, eff.P)
 		}
 		return "", "", ""
 	case eNodataN3, eNodataN3Legacy:
-		t := z.TruthOf(eff, in.qtype)
+		t := in.qi.tQ[in.ti]
 		if s, w, tol := noData(t); s != "" || tol != "" {
 			return s, w, tol
 		}
-		if e == eNodataN3 && out.secure && t.Kind == KWild {
-			if nc, _ := optReliance(false); nc {
-				return bad("optout-span-secure", "%s returned secure=true for wildcard NODATA %s although the next-closer cover has Opt-Out set", name, eff.P)
-			}
+		if e == eNodataN3 && out.secure && t.Kind == KWild && in.qi.ncOpt {
+			return bad("optout-span-secure", "%s returned secure=true for wildcard NODATA %s although the next-closer cover has Opt-Out set", name, eff.P)
 		}
 		return "", "", ""
 	case eDelegNSEC, eDelegN3, eDelegN3Legacy:
-		q := in.q.N
+		q := in.qi.q.N
 		nd := z.Nodes[q.K]
-		if nd != nil && nd.Deleg && !nd.DS {
+		if (nd != nil && nd.Deleg && !nd.DS) || in.qi.insecTerr {
 			return "", "", ""
 		}
-		if z.InsecureTerritory(q) {
-			return "", "", ""
-		}
-		if n3 && z.Spec.OptOut && !(nd != nil && nd.DS) {
-			if _, next, exact := z.hashedCE(q); !exact {
-				if cov, oo := z.coverOptOut(next); cov && oo {
-					return "", "", "" // RFC 5155 §6 / §8.9 opt-out: unsigned delegation possible here
-				}
-			}
+		if n3 && in.qi.dlgExcuse && !(nd != nil && nd.DS) {
+			return "", "", "optout-insecure-delegation" // RFC 5155 §6: an unsigned delegation may hide in the span
 		}
 		reason := "not-a-delegation"
 		if nd != nil && nd.DS {
@@ -298,16 +390,16 @@ func judge(e int, in *callIn, out callOut) (sig, what, tolerated string) {
 		}
 		return bad("insecure-delegation-"+reason, "%s accepted 'insecure delegation / no DS' for %s (%s)", name, q.P, reason)
 	case eWildNSEC, eWildN3, eWildN3Legacy:
-		nc := in.q.N.Suffix(in.wildL + 1)
-		t := z.TruthOf(nc, dns.TypeA)
-		exists := t.Kind != KNX && t.Kind != KWild
-		if exists && !((insecure || legacy) && z.hiddenByOptOut(nc)) {
-			return bad("next-closer-exists-"+t.Kind.String(), "%s accepted a wildcard expansion for %s (RRSIG labels %d) although next closer %s is %s", name, in.q.N.P, in.wildL, nc.P, t.Kind)
-		}
-		if e == eWildN3 && out.secure && z.Spec.OptOut {
-			if cov, oo := z.coverOptOut(nc); cov && oo {
-				return bad("optout-span-secure", "%s returned secure=true for %s although the cover of %s has Opt-Out set", name, in.q.N.P, nc.P)
+		wc := in.wc
+		exists := wc.ncT.Kind != KNX && wc.ncT.Kind != KWild
+		if exists {
+			if insecureOK && wc.ncExc {
+				return "", "", "optout-insecure-denial"
 			}
+			return bad("next-closer-exists-"+wc.ncT.Kind.String(), "%s accepted a wildcard expansion for %s (RRSIG labels %d) although next closer %s is %s", name, in.qi.q.N.P, wc.L, wc.nc.P, wc.ncT.Kind)
+		}
+		if e == eWildN3 && out.secure && wc.ncCovOO {
+			return bad("optout-span-secure", "%s returned secure=true for %s although the cover of %s has Opt-Out set", name, in.qi.q.N.P, wc.nc.P)
 		}
 		return "", "", ""
 	case eAggNSEC, eAggNSECPrepared, eAggNSECSet, eAggN3:
@@ -316,31 +408,28 @@ func judge(e int, in *callIn, out callOut) (sig, what, tolerated string) {
 			for _, r := range in.recs {
 				if r == p {
 					found = true
+					break
 				}
 			}
 			if !found {
 				return bad("proof-not-from-input", "%s returned a proof record that was not in its input", name)
 			}
 		}
-		t := z.TruthOf(eff, in.qtype)
+		t := in.qi.tQ[in.ti]
 		switch out.rcode {
 		case dns.RcodeNameError:
-			if s, w, tol := nameErr(t); s != "" {
+			if s, w, tol := nameErr(t); s != "" || tol != "" {
 				return s, w, tol
 			}
-			if e == eAggN3 {
-				if nc, wc := optReliance(true); nc || wc {
-					return bad("optout-span-synthesis", "%s synthesised NXDOMAIN for %s resting on an Opt-Out span", name, eff.P)
-				}
+			if e == eAggN3 && (in.qi.ncOpt || in.qi.wcOpt) {
+				return bad("optout-span-synthesis", "%s synthesised NXDOMAIN for %s resting on an Opt-Out span", name, eff.P)
 			}
 		case dns.RcodeSuccess:
 			if s, w, tol := noData(t); s != "" || tol != "" {
 				return s, w, tol
 			}
-			if e == eAggN3 && t.Kind == KWild {
-				if nc, _ := optReliance(false); nc {
-					return bad("optout-span-synthesis", "%s synthesised wildcard NODATA for %s resting on an Opt-Out span", name, eff.P)
-				}
+			if e == eAggN3 && t.Kind == KWild && in.qi.ncOpt {
+				return bad("optout-span-synthesis", "%s synthesised wildcard NODATA for %s resting on an Opt-Out span", name, eff.P)
 			}
 		default:
 			return bad("bad-rcode", "%s returned rcode %d", name, out.rcode)
@@ -358,16 +447,24 @@ func hasOwner(recs []dns.RR, n Name) bool {
 	return false
 }
 
-// ---------------------------------------------------------------- driver
+// ---------------------------------------------------------------- tallies
+
+type found struct {
+	key  string // deterministic order key of the case
+	what string
+	c    CaseA
+}
 
 type tally struct {
-	c    map[string]int64
-	dist map[string]struct{}
-	cls  map[string]map[string]struct{}
+	calls, accept, reject [nEntries]int64
+	c                     map[string]int64
+	dist                  map[string]struct{}
+	cls                   map[string]map[string]struct{}
+	viol                  map[string]*found
 }
 
 func newTally() *tally {
-	return &tally{c: map[string]int64{}, dist: map[string]struct{}{}, cls: map[string]map[string]struct{}{}}
+	return &tally{c: map[string]int64{}, dist: map[string]struct{}{}, cls: map[string]map[string]struct{}{}, viol: map[string]*found{}}
 }
 func (t *tally) add(k string, n int64) { t.c[k] += n }
 func (t *tally) distinct(k string)     { t.dist[k] = struct{}{} }
@@ -379,113 +476,78 @@ func (t *tally) in(class, k string) {
 	}
 	m[k] = struct{}{}
 }
-func (t *tally) flush(r *vlib.Run) {
-	for k, v := range t.c {
-		if k == "evals" {
-			r.Eval(int(v))
-		} else {
-			r.Count(k, int(v))
+
+// collector merges chunk tallies; violations are reported once all chunks are
+// done, each signature with the case of the smallest order key, so the output
+// does not depend on goroutine scheduling.
+type collector struct {
+	mu   sync.Mutex
+	viol map[string]*found
+}
+
+func (c *collector) merge(r *vlib.Run, t *tally) {
+	for e := 0; e < nEntries; e++ {
+		if t.calls[e] != 0 {
+			r.Count("calls/"+entryName[e], int(t.calls[e]))
+			r.Count("accept/"+entryName[e], int(t.accept[e]))
+			r.Count("reject/"+entryName[e], int(t.reject[e]))
+			r.Eval(int(t.accept[e]))
 		}
+	}
+	for k, v := range t.c {
+		r.Count(k, int(v))
 	}
 	for k := range t.dist {
 		r.Distinct(k)
 	}
-	for c, m := range t.cls {
+	for cl, m := range t.cls {
 		for k := range m {
-			r.DistinctIn(c, k)
+			r.DistinctIn(cl, k)
 		}
+	}
+	c.mu.Lock()
+	for sig, f := range t.viol {
+		if old := c.viol[sig]; old == nil || f.key < old.key {
+			c.viol[sig] = f
+		}
+	}
+	c.mu.Unlock()
+}
+
+func (c *collector) report(r *vlib.Run) {
+	sigs := make([]string, 0, len(c.viol))
+	for s := range c.viol {
+		sigs = append(sigs, s)
+	}
+	sort.Strings(sigs)
+	for _, s := range sigs {
+		f := c.viol[s]
+		r.Violation(s, f.what, f.c)
 	}
 }
 
-var sigSeen sync.Map
+// ---------------------------------------------------------------- per-zone state (read-only once built)
 
 type zoneRun struct {
-	r       *vlib.Run
 	ws      WorldSpec
 	w       *World
+	wi      int
 	primary string
 	z       *Zone
 	foreign []*Zone
-	rng     *rand.Rand
-	t       *tally
 	signer  string
-	U       []QName
-	uTypes  [][]uint16
-	uMsgs   [][]*dns.Msg
-	uShape  []string
+	Q       []*qinfo
 	wildQ   []wildCase
+	// chains
+	nsec   []dns.RR
+	nOwner []Name
+	nNext  []Name
+	n3     []dns.RR
+	n3b    []dns.RR
 }
 
-type wildCase struct {
-	qi    int
-	L     int
-	rtype uint16
-}
-
-func (zr *zoneRun) caseOf(e int, in *callIn, out callOut, truth string) CaseA {
-	c := CaseA{Layer: "A", World: zr.ws, Primary: zr.primary, Entry: entryName[e], Signer: in.signer, Mix: in.mix,
-		QName: in.q.N.P, QType: in.qtype, EffName: in.q.Eff.P, WildLabel: in.wildL, Truth: truth}
-	for _, rr := range in.recs {
-		c.Records = append(c.Records, rr.String())
-	}
-	if in.q.Dname != nil {
-		c.DnameRR = in.q.Dname.String()
-	}
-	c.Verdict = fmt.Sprintf("accepted secure=%v rcode=%d", out.secure, out.rcode)
-	return c
-}
-
-func (zr *zoneRun) observe(e int, in *callIn) {
-	out := doCall(e, in)
-	name := entryName[e]
-	zr.t.add("calls/"+name, 1)
-	if out.panicked != nil {
-		sig := vlib.Sig("panic", name)
-		zr.r.Violation(sig, fmt.Sprintf("%s panicked: %v", name, out.panicked), zr.caseOf(e, in, out, ""))
-		return
-	}
-	if !out.accepted {
-		zr.t.add("reject/"+name, 1)
-		return
-	}
-	zr.t.add("accept/"+name, 1)
-	zr.t.add("evals", 1)
-	t := zr.z.TruthOf(in.q.Eff, in.qtype)
-	if e == eAggNSEC || e == eAggNSECPrepared || e == eAggNSECSet || e == eAggN3 {
-		zr.t.add(fmt.Sprintf("accept/%s/rcode%d", name, out.rcode), 1)
-	}
-	if isNSEC3Entry(e) && !out.secure && (e == eNameErrN3 || e == eNodataN3 || e == eWildN3) {
-		zr.t.add("accept_insecure/"+name, 1)
-	}
-	zr.t.distinct(fmt.Sprintf("%s|%s|%s|r%d|s%v|%s|n%d", name, t.Kind, t.Data, out.rcode, out.secure, shapeOf(in.q.Eff, zr.z.Apex), len(in.recs)))
-	zr.t.in("name_shapes", shapeOf(in.q.Eff, zr.z.Apex)+"|"+t.Kind.String())
-	sig, what, tol := judge(e, in, out)
-	if tol != "" {
-		zr.t.add("tolerated/"+name+"/"+tol, 1)
-	}
-	if sig == "" {
-		return
-	}
-	zr.t.add("contradicted/"+sig, 1)
-	var c any
-	if _, dup := sigSeen.LoadOrStore(sig, true); !dup {
-		c = zr.caseOf(e, in, out, fmt.Sprintf("%s/%s", t.Kind, t.Data))
-	}
-	zr.r.Violation(sig, what, c)
-}
-
-func mkMsg(q QName, qtype uint16) *dns.Msg {
-	m := new(dns.Msg)
-	m.SetQuestion(q.N.P, qtype)
-	m.Response = true
-	if q.Dname != nil {
-		m.Answer = []dns.RR{q.Dname}
-	}
-	return m
-}
-
-func newZoneRun(r *vlib.Run, ws WorldSpec, w *World, primary string, rng *rand.Rand, ulimit int) *zoneRun {
-	zr := &zoneRun{r: r, ws: ws, w: w, primary: primary, rng: rng, t: newTally()}
+func newZoneRun(ws WorldSpec, w *World, wi int, primary string, rng *rand.Rand, ulimit int) *zoneRun {
+	zr := &zoneRun{ws: ws, w: w, wi: wi, primary: primary}
 	switch primary {
 	case "P":
 		zr.z, zr.foreign = w.P, []*Zone{w.S, w.C}
@@ -494,45 +556,43 @@ func newZoneRun(r *vlib.Run, ws WorldSpec, w *World, primary string, rng *rand.R
 	default:
 		zr.z, zr.foreign = w.S, []*Zone{w.P}
 	}
-	zr.signer = strings.ToLower(zr.z.Apex.P)
+	z := zr.z
+	zr.signer = strings.ToLower(z.Apex.P)
 	if rng.IntN(3) == 0 {
-		zr.signer = zr.z.Apex.P
+		zr.signer = z.Apex.P
 	}
-	zr.U = universe(zr.z, rng, ulimit)
-	for i, q := range zr.U {
-		ts := qtypesFor(zr.z, q.Eff)
-		zr.uTypes = append(zr.uTypes, ts)
-		var ms []*dns.Msg
-		for _, t := range ts {
-			ms = append(ms, mkMsg(q, t))
-		}
-		zr.uMsgs = append(zr.uMsgs, ms)
-		zr.uShape = append(zr.uShape, shapeOf(q.Eff, zr.z.Apex))
-		zr.t.in("qname_shapes_tried", zr.uShape[i]+"|"+zr.z.TruthOf(q.Eff, dns.TypeA).Kind.String())
+	for i, q := range universe(z, rng, ulimit) {
+		zr.Q = append(zr.Q, mkQinfo(z, q, qtypesFor(z, q.Eff)))
 		if q.Dname != nil {
 			continue
 		}
 		// wildcard-answer cases: a genuine wildcard *.ce of the zone with q strictly below ce
-		for _, nd := range zr.z.nsecOwners {
-			if len(nd.Name.L) == 0 || len(nd.Name.L[0]) != 1 || nd.Name.L[0][0] != '*' || nd.Name.Equal(zr.z.Apex) {
+		for _, nd := range z.nsecOwners {
+			if len(nd.Name.L) == 0 || len(nd.Name.L[0]) != 1 || nd.Name.L[0][0] != '*' || nd.Name.Equal(z.Apex) {
 				continue
 			}
 			ce := nd.Name.Parent()
 			if !q.N.IsStrictSubOf(ce) || q.N.Equal(nd.Name) {
 				continue
 			}
-			var rt uint16
-			for _, t := range sortedTypes(nd.Types) {
-				rt = t
-				break
-			}
-			zr.wildQ = append(zr.wildQ, wildCase{qi: i, L: ce.NumLabels(), rtype: rt})
+			zr.wildQ = append(zr.wildQ, mkWildCase(z, q.N, i, ce.NumLabels(), sortedTypes(nd.Types)[0]))
 		}
+	}
+	for _, r := range z.NSECChain() {
+		zr.nsec = append(zr.nsec, r)
+		zr.nOwner = append(zr.nOwner, mustName(r.Hdr.Name))
+		zr.nNext = append(zr.nNext, mustName(r.NextDomain))
+	}
+	for _, r := range z.NSEC3Chain() {
+		zr.n3 = append(zr.n3, r)
+	}
+	for _, r := range z.NSEC3Chain2() {
+		zr.n3b = append(zr.n3b, r)
 	}
 	return zr
 }
 
-func wildMsg(q QName, wc wildCase, ns []dns.RR) *dns.Msg {
+func wildMsg(q QName, wc *wildCase, ns []dns.RR) *dns.Msg {
 	m := new(dns.Msg)
 	m.SetQuestion(q.N.P, wc.rtype)
 	m.Response = true
@@ -545,69 +605,55 @@ func wildMsg(q QName, wc wildCase, ns []dns.RR) *dns.Msg {
 	return m
 }
 
-// pollute adds foreign / conflicting records to a subset. Returns the new set
-// and the mix kind ("" when the addition is benign).
-func (zr *zoneRun) pollute(set []dns.RR, nsec3 bool, chain []dns.RR, chain2 []dns.RR) ([]dns.RR, string) {
-	rng := zr.rng
-	kinds := []string{"zone", "zone", "class", "dup"}
-	if nsec3 {
-		kinds = append(kinds, "params", "params", "unusable")
+func (zr *zoneRun) nsecCovers(i int, q Name) bool {
+	o, n := zr.nOwner[i], zr.nNext[i]
+	on := canonCmp(o, n)
+	qo, qn := canonCmp(q, o), canonCmp(q, n)
+	switch {
+	case on == 0:
+		return qo != 0
+	case on < 0:
+		return qo > 0 && qn < 0
 	}
-	kind := kinds[rng.IntN(len(kinds))]
-	switch kind {
-	case "zone":
-		f := zr.foreign[rng.IntN(len(zr.foreign))]
-		var src []dns.RR
-		if nsec3 {
-			for _, r := range f.NSEC3Chain() {
-				src = append(src, r)
-			}
-		} else {
-			// a child's NSEC records are indistinguishable by name from the parent's
-			// own and are excluded by RRSIG signer validation upstream of the
-			// evaluators (dnssec.usableSignatureCandidate); see FINDINGS.md "scope".
-			if f.Apex.IsStrictSubOf(zr.z.Apex) {
-				return set, ""
-			}
-			for _, r := range f.NSECChain() {
-				src = append(src, r)
-			}
-		}
-		if len(src) == 0 {
-			return set, ""
-		}
-		k := 1 + rng.IntN(3)
-		for i := 0; i < k; i++ {
-			idx := rng.IntN(len(src))
-			if !nsec3 && rng.IntN(2) == 0 {
-				idx = len(src) - 1 // the wrap-around NSEC covers "everything"
-			}
-			set = append(set, src[idx])
-		}
-		return set, "zone"
-	case "class":
-		c := dns.Copy(chain[rng.IntN(len(chain))])
-		c.Header().Class = dns.ClassCHAOS
-		return append(set, c), "class"
-	case "dup":
-		if len(set) == 0 {
-			return set, ""
-		}
-		return append(set, dns.Copy(set[rng.IntN(len(set))])), ""
-	case "params":
-		if len(chain2) == 0 {
-			return set, ""
-		}
-		return append(set, chain2[rng.IntN(len(chain2))]), "params"
-	case "unusable":
-		c := dns.Copy(chain[rng.IntN(len(chain))]).(*dns.NSEC3)
-		c.Iterations = 151
-		return append(set, c), ""
-	}
-	return set, ""
+	return qo > 0 || qn < 0
 }
 
-func (zr *zoneRun) masks(n int, nRandom int, proofIdx func(q Name) []int) (masks [][]int, exhaustive bool) {
+// proofIdx: indices of the chain records an honest server would use for q
+// (matches and covers of q's ancestors and of the wildcards at them).
+func (zr *zoneRun) proofIdx(nsec3 bool, q Name) []int {
+	z := zr.z
+	var idx []int
+	for a := q; a.NumLabels() >= z.Apex.NumLabels(); a = a.Parent() {
+		for _, n := range []Name{a, a.Child([]byte{'*'})} {
+			if nsec3 {
+				h := nsec3Hash(n, z.salt, z.Spec.Iter)
+				for i := range z.chain3 {
+					r := &z.chain3[i]
+					if string(r.Hash) == string(h) || hashCovered(r.Hash, z.chain3[r.NextIdx].Hash, h) {
+						idx = append(idx, i)
+					}
+				}
+			} else {
+				for i := range zr.nsec {
+					if zr.nOwner[i].Equal(n) || zr.nsecCovers(i, n) {
+						idx = append(idx, i)
+					}
+				}
+			}
+		}
+		if a.IsRoot() {
+			break
+		}
+	}
+	sort.Ints(idx)
+	return uniqInts(idx)
+}
+
+func (zr *zoneRun) masks(rng *rand.Rand, nsec3 bool, nRandom int) (masks [][]int, exhaustive bool) {
+	n := len(zr.nsec)
+	if nsec3 {
+		n = len(zr.n3)
+	}
 	if n <= exhaustiveMax {
 		for m := 1; m < 1<<n; m++ {
 			var idx []int
@@ -620,14 +666,11 @@ func (zr *zoneRun) masks(n int, nRandom int, proofIdx func(q Name) []int) (masks
 		}
 		return masks, true
 	}
-	rng := zr.rng
 	for k := 0; k < nRandom; k++ {
 		var idx []int
 		switch d := rng.IntN(20); {
 		case d < 7: // small
-			for _, i := range rng.Perm(n)[:1+rng.IntN(4)] {
-				idx = append(idx, i)
-			}
+			idx = append(idx, rng.Perm(n)[:1+rng.IntN(4)]...)
 		case d < 10: // all but one
 			skip := rng.IntN(n)
 			for i := 0; i < n; i++ {
@@ -639,11 +682,11 @@ func (zr *zoneRun) masks(n int, nRandom int, proofIdx func(q Name) []int) (masks
 			for i := 0; i < n; i++ {
 				idx = append(idx, i)
 			}
-		case d < 16: // the records an honest proof for some universe name uses (+/- one)
-			q := zr.U[rng.IntN(len(zr.U))].Eff
-			idx = proofIdx(q)
-			if len(idx) > 0 && rng.IntN(3) == 0 {
-				idx = idx[1:]
+		case d < 16: // what an honest proof for some universe name uses, minus / plus one
+			idx = zr.proofIdx(nsec3, zr.Q[rng.IntN(len(zr.Q))].q.Eff)
+			if len(idx) > 1 && rng.IntN(3) == 0 {
+				drop := rng.IntN(len(idx))
+				idx = append(idx[:drop:drop], idx[drop+1:]...)
 			}
 			if rng.IntN(2) == 0 {
 				idx = append(idx, rng.IntN(n))
@@ -675,249 +718,334 @@ func uniqInts(s []int) []int {
 	return out
 }
 
-func (zr *zoneRun) runNSEC(nRandom int) {
-	z := zr.z
-	chainT := z.NSECChain()
-	chain := make([]dns.RR, len(chainT))
-	owners := make([]Name, len(chainT))
-	nexts := make([]Name, len(chainT))
-	for i, r := range chainT {
-		chain[i] = r
-		owners[i] = mustName(r.Hdr.Name)
-		nexts[i] = mustName(r.NextDomain)
+// ---------------------------------------------------------------- one chunk of subsets
+
+type chunk struct {
+	zr    *zoneRun
+	nsec3 bool
+	first int // index of the first mask (order key)
+	masks [][]int
+	rng   *rand.Rand
+	t     *tally
+	r     *vlib.Run
+	seq   int
+}
+
+func (ck *chunk) caseOf(e int, in *callIn, out callOut, truth string) CaseA {
+	zr := ck.zr
+	c := CaseA{Layer: "A", World: zr.ws, Primary: zr.primary, Entry: entryName[e], Signer: in.signer, Mix: in.mix,
+		QName: in.qi.q.N.P, QType: in.qtype(), EffName: in.qi.q.Eff.P, Truth: truth}
+	if in.wc != nil {
+		c.WildLabel = in.wc.L
 	}
-	covers := func(i int, q Name) bool {
-		o, n := owners[i], nexts[i]
-		on := canonCmp(o, n)
-		qo, qn := canonCmp(q, o), canonCmp(q, n)
-		switch {
-		case on == 0:
-			return qo != 0
-		case on < 0:
-			return qo > 0 && qn < 0
+	for _, rr := range in.recs {
+		c.Records = append(c.Records, rr.String())
+	}
+	if in.qi.q.Dname != nil {
+		c.DnameRR = in.qi.q.Dname.String()
+	}
+	c.Verdict = fmt.Sprintf("accepted secure=%v rcode=%d", out.secure, out.rcode)
+	return c
+}
+
+func (ck *chunk) observe(e int, in *callIn) {
+	out := doCall(e, in)
+	t := ck.t
+	t.calls[e]++
+	ck.seq++
+	if out.panicked != nil {
+		sig := vlib.Sig("panic", sigFunc[e])
+		if t.viol[sig] == nil {
+			t.viol[sig] = &found{key: ck.orderKey(), what: fmt.Sprintf("%s panicked: %v", entryName[e], out.panicked), c: ck.caseOf(e, in, out, "")}
 		}
-		return qo > 0 || qn < 0
+		return
 	}
-	proofIdx := func(q Name) []int {
-		var idx []int
-		for a := q; a.NumLabels() >= z.Apex.NumLabels(); a = a.Parent() {
-			w := a.Child([]byte{'*'})
-			for i := range chain {
-				if owners[i].Equal(a) || covers(i, a) || owners[i].Equal(w) || covers(i, w) {
-					idx = append(idx, i)
-				}
-			}
-			if a.IsRoot() {
-				break
-			}
-		}
-		sort.Ints(idx)
-		return uniqInts(idx)
+	if !out.accepted {
+		t.reject[e]++
+		return
 	}
-	masks, exhaustive := zr.masks(len(chain), nRandom, proofIdx)
-	if exhaustive {
-		zr.t.add("exhaustive_zones/nsec", 1)
+	t.accept[e]++
+	name := entryName[e]
+	var tr Truth
+	if in.wc != nil {
+		tr = in.wc.ncT
 	} else {
-		zr.t.add("sampled_zones/nsec", 1)
+		tr = in.qi.tQ[in.ti]
 	}
-	zr.t.add("subsets/nsec", int64(len(masks)))
-	rng := zr.rng
-	for _, idx := range masks {
+	if e == eAggNSEC || e == eAggNSECPrepared || e == eAggNSECSet || e == eAggN3 {
+		t.add("accept/"+name+"/rcode"+strconv.Itoa(out.rcode), 1)
+	}
+	if !out.secure && (e == eNameErrN3 || e == eNodataN3 || e == eWildN3) {
+		t.add("accept_insecure/"+name, 1)
+	}
+	sec := "s"
+	if !out.secure {
+		sec = "i"
+	}
+	t.distinct(name + "|" + tr.Kind.String() + "|" + tr.Data.String() + "|" + strconv.Itoa(out.rcode) + sec + "|" + in.qi.shape + "|" + strconv.Itoa(len(in.recs)))
+	t.in("name_shapes", in.qi.shape+"|"+tr.Kind.String())
+	sig, what, tol := judge(e, in, out)
+	if tol != "" {
+		t.add("tolerated/"+name+"/"+tol, 1)
+	}
+	if sig == "" {
+		return
+	}
+	t.add("contradicted/"+sig, 1)
+	if t.viol[sig] == nil {
+		c := ck.caseOf(e, in, out, tr.Kind.String()+"/"+tr.Data.String())
+		c.Where = ck.orderKey()
+		t.viol[sig] = &found{key: c.Where, what: what, c: c}
+	}
+}
+
+func (ck *chunk) orderKey() string {
+	fam := "nsec"
+	if ck.nsec3 {
+		fam = "nsec3"
+	}
+	return fmt.Sprintf("w%05d/%s/%s/m%07d/c%07d", ck.zr.wi, ck.zr.primary, fam, ck.first, ck.seq)
+}
+
+// pollute adds foreign / conflicting records to a subset. Returns the new set
+// and the mix kind ("" when the addition is benign).
+func (ck *chunk) pollute(set []dns.RR) ([]dns.RR, string) {
+	rng, zr := ck.rng, ck.zr
+	chain := zr.nsec
+	kinds := []string{"zone", "zone", "class", "dup"}
+	if ck.nsec3 {
+		chain = zr.n3
+		kinds = append(kinds, "params", "params", "unusable")
+	}
+	switch kinds[rng.IntN(len(kinds))] {
+	case "zone":
+		f := zr.foreign[rng.IntN(len(zr.foreign))]
+		var src []dns.RR
+		if ck.nsec3 {
+			for _, r := range f.NSEC3Chain() {
+				src = append(src, r)
+			}
+		} else {
+			// a child's NSEC records are indistinguishable by name from the parent's
+			// own and are excluded by RRSIG signer validation upstream of the
+			// evaluators (dnssec.usableSignatureCandidate); see FINDINGS.md "Scope".
+			if f.Apex.IsStrictSubOf(zr.z.Apex) {
+				return set, ""
+			}
+			for _, r := range f.NSECChain() {
+				src = append(src, r)
+			}
+		}
+		if len(src) == 0 {
+			return set, ""
+		}
+		for k := 1 + rng.IntN(3); k > 0; k-- {
+			idx := rng.IntN(len(src))
+			if !ck.nsec3 && rng.IntN(2) == 0 {
+				idx = len(src) - 1 // the wrap-around NSEC "covers" a lot
+			}
+			set = append(set, src[idx])
+		}
+		return set, "zone"
+	case "class":
+		c := dns.Copy(chain[rng.IntN(len(chain))])
+		c.Header().Class = dns.ClassCHAOS
+		return append(set, c), "class"
+	case "dup":
+		return append(set, dns.Copy(set[rng.IntN(len(set))])), ""
+	case "params":
+		return append(set, zr.n3b[rng.IntN(len(zr.n3b))]), "params"
+	case "unusable":
+		c := dns.Copy(chain[rng.IntN(len(chain))]).(*dns.NSEC3)
+		c.Iterations = 151
+		return append(set, c), ""
+	}
+	return set, ""
+}
+
+func (ck *chunk) run() {
+	fam := "nsec"
+	if ck.nsec3 {
+		fam = "nsec3"
+	}
+	ck.t.add("subsets/"+fam, int64(len(ck.masks)))
+	for mi, idx := range ck.masks {
+		chain := ck.zr.nsec
+		if ck.nsec3 {
+			chain = ck.zr.n3
+		}
 		set := make([]dns.RR, 0, len(idx)+3)
 		for _, i := range idx {
 			set = append(set, chain[i])
 		}
 		mix := ""
-		if rng.IntN(10) < 3 {
-			set, mix = zr.pollute(set, false, chain, nil)
+		if ck.rng.IntN(10) < 3 {
+			set, mix = ck.pollute(set)
 			if mix != "" {
-				zr.t.add("polluted_subsets/nsec/"+mix, 1)
+				ck.t.add("polluted_subsets/"+fam+"/"+mix, 1)
 			}
 		}
-		rng.Shuffle(len(set), func(i, j int) { set[i], set[j] = set[j], set[i] })
-		// what resolver.authority hands the exact verifiers: the NSEC RRs of the
-		// authority section filtered to the validated signer zone. CLASS is bound
-		// by RRSIG validation upstream (an RRset of another class has no
-		// verifiable signature), so class-polluted records never get this far.
-		var exact []dns.RR
-		for _, rr := range dnsutil.FilterRRsToZone(set, zr.signer) {
-			if rr.Header().Class == dns.ClassINET {
-				exact = append(exact, rr)
-			}
-		}
-		var prep []dnssec.PreparedNSEC
-		prepOK := true
-		for _, rr := range set {
-			p, err := dnssec.PrepareAggressiveNSEC(rr.(*dns.NSEC))
-			if err != nil {
-				prepOK = false
-				break
-			}
-			prep = append(prep, p)
-		}
-		var aset *dnssec.AggressiveNSECSet
-		if prepOK {
-			aset, _ = dnssec.NewAggressiveNSECSet(prep, zr.signer)
-		}
-		in := callIn{z: z, signer: zr.signer}
-		for qi := range zr.U {
-			in.q = zr.U[qi]
-			in.mix = ""
-			in.recs = exact
-			in.qtype = dns.TypeA
-			in.msg = zr.uMsgs[qi][0]
-			if len(exact) > 0 {
-				zr.observe(eNameErrNSEC, &in)
-				if in.q.Dname == nil {
-					zr.observe(eDelegNSEC, &in)
-				}
-				for ti, t := range zr.uTypes[qi] {
-					in.qtype, in.msg = t, zr.uMsgs[qi][ti]
-					zr.observe(eNodataNSEC, &in)
-				}
-			}
-			in.recs, in.mix = set, mix
-			in.prep, in.set = prep, aset
-			for ti, t := range zr.uTypes[qi] {
-				in.qtype, in.msg = t, zr.uMsgs[qi][ti]
-				zr.observe(eAggNSEC, &in)
-				if prepOK {
-					zr.observe(eAggNSECPrepared, &in)
-				}
-				if aset != nil {
-					zr.observe(eAggNSECSet, &in)
-				}
-			}
-		}
-		if len(exact) > 0 {
-			for _, wc := range zr.wildQ {
-				in.q, in.qtype, in.wildL, in.mix, in.recs = zr.U[wc.qi], wc.rtype, wc.L, "", exact
-				in.wildMsg = wildMsg(in.q, wc, exact)
-				zr.observe(eWildNSEC, &in)
-			}
-			in.wildL, in.wildMsg = 0, nil
+		ck.rng.Shuffle(len(set), func(i, j int) { set[i], set[j] = set[j], set[i] })
+		if ck.nsec3 {
+			ck.subsetNSEC3(set, mix, (ck.first+mi)%4 == 0)
+		} else {
+			ck.subsetNSEC(set, mix)
 		}
 	}
 }
 
-func (zr *zoneRun) runNSEC3(nRandom int) {
-	z := zr.z
-	chainT := z.NSEC3Chain()
-	chain := make([]dns.RR, len(chainT))
-	for i, r := range chainT {
-		chain[i] = r
-	}
-	var chain2 []dns.RR
-	for _, r := range z.NSEC3Chain2() {
-		chain2 = append(chain2, r)
-	}
-	proofIdx := func(q Name) []int {
-		var idx []int
-		for a := q; a.NumLabels() >= z.Apex.NumLabels(); a = a.Parent() {
-			for _, n := range []Name{a, a.Child([]byte{'*'})} {
-				h := nsec3Hash(n, z.salt, z.Spec.Iter)
-				for i := range z.chain3 {
-					r := &z.chain3[i]
-					if string(r.Hash) == string(h) || hashCovered(r.Hash, z.chain3[r.NextIdx].Hash, h) {
-						idx = append(idx, i)
-					}
-				}
-			}
-			if a.IsRoot() {
-				break
-			}
+func (ck *chunk) subsetNSEC(set []dns.RR, mix string) {
+	zr := ck.zr
+	// What resolver.authority hands the exact verifiers: the NSEC RRs of the
+	// authority section filtered to the validated signer zone. CLASS is bound
+	// by RRSIG validation upstream (an RRset of another class has no
+	// verifiable signature), so class-polluted records never get this far.
+	var exact []dns.RR
+	for _, rr := range dnsutil.FilterRRsToZone(set, zr.signer) {
+		if rr.Header().Class == dns.ClassINET {
+			exact = append(exact, rr)
 		}
-		sort.Ints(idx)
-		return uniqInts(idx)
 	}
-	masks, exhaustive := zr.masks(len(chain), nRandom, proofIdx)
-	if exhaustive {
-		zr.t.add("exhaustive_zones/nsec3", 1)
-	} else {
-		zr.t.add("sampled_zones/nsec3", 1)
-	}
-	zr.t.add("subsets/nsec3", int64(len(masks)))
-	rng := zr.rng
-	for mi, idx := range masks {
-		set := make([]dns.RR, 0, len(idx)+3)
-		for _, i := range idx {
-			set = append(set, chain[i])
+	var prep []dnssec.PreparedNSEC
+	prepOK := true
+	for _, rr := range set {
+		p, err := dnssec.PrepareAggressiveNSEC(rr.(*dns.NSEC))
+		if err != nil {
+			prepOK = false
+			break
 		}
-		mix := ""
-		if rng.IntN(10) < 3 {
-			set, mix = zr.pollute(set, true, chain, chain2)
-			if mix != "" {
-				zr.t.add("polluted_subsets/nsec3/"+mix, 1)
+		prep = append(prep, p)
+	}
+	var aset *dnssec.AggressiveNSECSet
+	if prepOK {
+		aset, _ = dnssec.NewAggressiveNSECSet(prep, zr.signer)
+	}
+	in := callIn{z: zr.z, signer: zr.signer}
+	for _, qi := range zr.Q {
+		in.qi, in.ti = qi, 0
+		in.mix, in.recs = "", exact
+		if len(exact) > 0 {
+			ck.observe(eNameErrNSEC, &in)
+			if qi.q.Dname == nil {
+				ck.observe(eDelegNSEC, &in)
+			}
+			for ti := range qi.types {
+				in.ti = ti
+				ck.observe(eNodataNSEC, &in)
 			}
 		}
-		rng.Shuffle(len(set), func(i, j int) { set[i], set[j] = set[j], set[i] })
-		legacy := mi%4 == 0
-		in := callIn{z: z, signer: zr.signer, recs: set, mix: mix}
-		for qi := range zr.U {
-			in.q = zr.U[qi]
-			in.qtype, in.msg = dns.TypeA, zr.uMsgs[qi][0]
-			zr.observe(eNameErrN3, &in)
+		in.recs, in.mix = set, mix
+		in.prep, in.set = prep, aset
+		for ti := range qi.types {
+			in.ti = ti
+			ck.observe(eAggNSEC, &in)
+			if prepOK {
+				ck.observe(eAggNSECPrepared, &in)
+			}
+			if aset != nil {
+				ck.observe(eAggNSECSet, &in)
+			}
+		}
+	}
+	if len(exact) > 0 {
+		in.mix, in.recs = "", exact
+		for i := range zr.wildQ {
+			wc := &zr.wildQ[i]
+			in.qi, in.ti, in.wc = zr.Q[wc.qi], 0, wc
+			in.wildMsg = wildMsg(in.qi.q, wc, exact)
+			ck.observe(eWildNSEC, &in)
+		}
+	}
+}
+
+func (ck *chunk) subsetNSEC3(set []dns.RR, mix string, legacy bool) {
+	zr := ck.zr
+	in := callIn{z: zr.z, signer: zr.signer, recs: set, mix: mix}
+	for _, qi := range zr.Q {
+		in.qi, in.ti = qi, 0
+		ck.observe(eNameErrN3, &in)
+		if legacy {
+			ck.observe(eNameErrN3Legacy, &in)
+		}
+		if qi.q.Dname == nil {
+			ck.observe(eDelegN3, &in)
 			if legacy {
-				zr.observe(eNameErrN3Legacy, &in)
-			}
-			if in.q.Dname == nil {
-				zr.observe(eDelegN3, &in)
-				if legacy {
-					zr.observe(eDelegN3Legacy, &in)
-				}
-			}
-			for ti, t := range zr.uTypes[qi] {
-				in.qtype, in.msg = t, zr.uMsgs[qi][ti]
-				zr.observe(eNodataN3, &in)
-				zr.observe(eAggN3, &in)
-				if legacy {
-					zr.observe(eNodataN3Legacy, &in)
-				}
+				ck.observe(eDelegN3Legacy, &in)
 			}
 		}
-		for _, wc := range zr.wildQ {
-			in.q, in.qtype, in.wildL = zr.U[wc.qi], wc.rtype, wc.L
-			in.wildMsg = wildMsg(in.q, wc, set)
-			zr.observe(eWildN3, &in)
+		for ti := range qi.types {
+			in.ti = ti
+			ck.observe(eNodataN3, &in)
+			ck.observe(eAggN3, &in)
 			if legacy {
-				zr.observe(eWildN3Legacy, &in)
+				ck.observe(eNodataN3Legacy, &in)
 			}
 		}
-		in.wildL, in.wildMsg = 0, nil
+	}
+	for i := range zr.wildQ {
+		wc := &zr.wildQ[i]
+		in.qi, in.ti, in.wc = zr.Q[wc.qi], 0, wc
+		in.wildMsg = wildMsg(in.qi.q, wc, set)
+		ck.observe(eWildN3, &in)
+		if legacy {
+			ck.observe(eWildN3Legacy, &in)
+		}
 	}
 }
 
 // layerA runs nWorlds generated worlds (P and C of each as the zone under
-// test) on all cores.
+// test), split into chunks of subsets executed on all cores.
 func layerA(r *vlib.Run, nWorlds, nRandom, ulimit int) {
-	type job struct{ wi int }
-	jobs := make(chan job, nWorlds)
+	const chunkSize = 48
+	col := &collector{viol: map[string]*found{}}
+	jobs := make(chan *chunk, 64)
 	var wg sync.WaitGroup
-	for w := 0; w < 16; w++ {
+	for w := 0; w < runtime.GOMAXPROCS(0); w++ {
 		wg.Add(1)
 		go func() {
 			defer wg.Done()
-			for j := range jobs {
-				rng := r.RandN("layerA", j.wi)
-				small := j.wi%4 != 3
-				ws := genWorld(rng, small)
-				w := buildWorld(ws)
-				for _, primary := range []string{"P", "C"} {
-					zr := newZoneRun(r, ws, w, primary, rng, ulimit)
-					zr.t.add("zones", 1)
-					zr.runNSEC(nRandom)
-					zr.runNSEC3(nRandom)
-					zr.t.flush(r)
-				}
-				r.Progress("layer A: world %d done", j.wi)
+			for ck := range jobs {
+				ck.run()
+				col.merge(r, ck.t)
 			}
 		}()
 	}
-	for i := 0; i < nWorlds; i++ {
-		jobs <- job{i}
+	for wi := 0; wi < nWorlds; wi++ {
+		rng := r.RandN("layerA", wi)
+		ws := genWorld(rng, wi%4 != 3)
+		w := buildWorld(ws)
+		for pi, primary := range []string{"P", "C"} {
+			zr := newZoneRun(ws, w, wi, primary, rng, ulimit)
+			t := newTally()
+			t.add("zones", 1)
+			for _, qi := range zr.Q {
+				t.in("qname_shapes_tried", qi.shape+"|"+qi.tA.Kind.String())
+				t.in("truth_kinds_tried", qi.tA.Kind.String())
+			}
+			for fi, nsec3 := range []bool{false, true} {
+				fam := "nsec"
+				if nsec3 {
+					fam = "nsec3"
+				}
+				masks, exhaustive := zr.masks(rng, nsec3, nRandom)
+				if exhaustive {
+					t.add("exhaustive_zones/"+fam, 1)
+				} else {
+					t.add("sampled_zones/"+fam, 1)
+				}
+				for off := 0; off < len(masks); off += chunkSize {
+					end := min(off+chunkSize, len(masks))
+					jobs <- &chunk{zr: zr, nsec3: nsec3, first: off, masks: masks[off:end], r: r, t: newTally(),
+						rng: r.RandN("layerA-chunk", ((wi*2+pi)*2+fi)<<20|off)}
+				}
+			}
+			col.merge(r, t)
+		}
+		r.Progress("layer A: world %d/%d queued", wi+1, nWorlds)
 	}
 	close(jobs)
 	wg.Wait()
+	col.report(r)
 }
 
 // replayA re-executes one recorded Layer A case.
@@ -931,7 +1059,7 @@ func replayA(r *vlib.Run, c CaseA) {
 	if e < 0 {
 		r.Fatalf("replay: unknown entry %q", c.Entry)
 	}
-	in := callIn{z: z, signer: c.Signer, mix: c.Mix, qtype: c.QType, wildL: c.WildLabel}
+	in := callIn{z: z, signer: c.Signer, mix: c.Mix}
 	for _, s := range c.Records {
 		rr, err := dns.NewRR(s)
 		if err != nil || rr == nil {
@@ -939,17 +1067,19 @@ func replayA(r *vlib.Run, c CaseA) {
 		}
 		in.recs = append(in.recs, rr)
 	}
-	in.q = QName{N: mustName(c.QName), Eff: mustName(c.EffName)}
+	q := QName{N: mustName(c.QName), Eff: mustName(c.EffName)}
 	if c.DnameRR != "" {
 		rr, err := dns.NewRR(c.DnameRR)
 		if err != nil {
 			r.Fatalf("replay: dname: %v", err)
 		}
-		in.q.Dname = rr.(*dns.DNAME)
+		q.Dname = rr.(*dns.DNAME)
 	}
-	in.msg = mkMsg(in.q, c.QType)
+	in.qi = mkQinfo(z, q, []uint16{c.QType})
 	if e == eWildNSEC || e == eWildN3 || e == eWildN3Legacy {
-		in.wildMsg = wildMsg(in.q, wildCase{L: c.WildLabel, rtype: c.QType}, in.recs)
+		wc := mkWildCase(z, q.N, 0, c.WildLabel, c.QType)
+		in.wc = &wc
+		in.wildMsg = wildMsg(q, in.wc, in.recs)
 	}
 	if e == eAggNSECPrepared || e == eAggNSECSet {
 		for _, rr := range in.recs {
@@ -964,9 +1094,10 @@ func replayA(r *vlib.Run, c CaseA) {
 	out := doCall(e, &in)
 	r.Eval(1)
 	r.Count("replayed", 1)
-	fmt.Printf("replay: %s -> accepted=%v secure=%v rcode=%d panicked=%v; truth %+v\n", c.Entry, out.accepted, out.secure, out.rcode, out.panicked, z.TruthOf(in.q.Eff, c.QType).Kind)
+	fmt.Printf("replay: %s(%s/%s) -> accepted=%v secure=%v rcode=%d panicked=%v; model: %s/%s\n", c.Entry, q.Eff.P, dns.TypeToString[c.QType],
+		out.accepted, out.secure, out.rcode, out.panicked, in.qi.tQ[0].Kind, in.qi.tQ[0].Data)
 	if out.panicked != nil {
-		r.Violation(vlib.Sig("panic", c.Entry), fmt.Sprint(out.panicked), c)
+		r.Violation(vlib.Sig("panic", sigFunc[e]), fmt.Sprint(out.panicked), c)
 		return
 	}
 	if !out.accepted {
